@@ -143,6 +143,7 @@ def db_for_config(rng, scheme, cfg, many=False):
     if many:  # escalation workload: many one-posting keywords (each search is an independent try)
         max_total = max_total if scheme in ("CGKO06.SSE1", "CGKO06.SSE2") else 40
         nk = max(1, min(max_kw if scheme in ("CGKO06.SSE1", "CGKO06.SSE2") else 40, max_total))
+        nk = 1 << (nk.bit_length() - 1)  # a power of two: CT14 / ANSS16 then add no dummy keywords on other levels
         lens = [1] * nk
     else:
         nk = rng.randint(1, max(1, min(max_kw, 5)))
@@ -259,10 +260,14 @@ def run_config(scheme, label, field, vclass, cfg, acc, rng, deleted=None):
                               f"{len(got)} ids instead of {len(want)} ({sse.diff_kind(scheme, got, want)}) without raising",
                               dict(case, keyword=w))
                 return "wrong"
-        if n_raised:
-            # Some searches raised on an index that was built without complaint: a wrong-key decryption that raises
-            # most of the time can also unpad by chance (about 1 in 256).  Escalate: many independent tries.
-            for rnd in range(30):
+        suspicious = [k for k in FIELDS[scheme]["length"]
+                      if not (isinstance(cfg.get(k), int) and not isinstance(cfg.get(k), bool) and cfg.get(k) > 0)]
+        if n_raised or suspicious:
+            # Some searches raised on an index that was built without complaint - or an outright invalid length was
+            # accepted and the few searches above happened to be right: a wrong-key decryption that raises most of the
+            # time can also unpad by chance (about 1 in 256).  Escalate: many independent one-posting keywords.
+            acc.count("escalations")
+            for rnd in range(30 if n_raised else 12):
                 db2 = db_for_config(rng, scheme, cfg, many=True)
                 if db2 is None:
                     break
